@@ -54,6 +54,11 @@ for n in sorted(os.listdir(root)):
         continue
     if not os.path.exists(mp): continue
     m=json.load(open(mp))
+    if n.startswith('hand-'):
+        m['source']='hand-written from the "Catches" lists of DESIGN.md section 4 (not by a sub-agent; no demonstration test)'
+        m['what_i_ran']='scripts/hand_tests.py (scratch worktree: builds, existing tests of the touched packages pass with it); scripts/seed_matrix.py'
+        json.dump(m, open(mp,'w'), indent=1)
+        continue
     m['needs']=N.get(n, m.get('needs',''))
     m['source']='independent sub-agent given only the property text and a scratch worktree (round %s)' % ('1' if n.endswith('-a') else '2')
     m['what_i_ran']='scripts/confirm_seed.py (fresh worktree of /repo HEAD: git apply --check, go build, existing tests of touched packages, demo fails with / passes without); scripts/seed_matrix.py (patch applied to /repo working tree, quick tier of the named checks, tree restored)'
